@@ -1,3 +1,40 @@
-From Sigtools.Model Require Import Base Bind Algebra.
-Theorem C15_placeholder : True. Proof. exact I. Qed.
-Print Assumptions C15_placeholder.
+(* C15 — the algebra fails only with ValueError and never yields malformed output. *)
+From Sigtools.Model Require Import Base Bind Roles Algebra.
+From Sigtools.Proofs Require Import SmallModel Basics.
+
+Theorem C15_merge_wf ss r : merge ss = Ok r -> validate (params r) = true.
+Proof. exact (merge_wf ss r). Qed.
+Print Assumptions C15_merge_wf.
+Theorem C15_embed_wf ss uva uvk r : embed ss uva uvk = Ok r -> validate (params r) = true.
+Proof. exact (embed_wf ss uva uvk r). Qed.
+Print Assumptions C15_embed_wf.
+Theorem C15_mask_wf s n h named pm r : mask_gen s n h named pm = Ok r -> validate (params r) = true.
+Proof. exact (mask_gen_wf s n h named pm r). Qed.
+Print Assumptions C15_mask_wf.
+Theorem C15_forwards_wf o i n names0 ha hk uva uvk p r :
+  forwards o i n names0 ha hk uva uvk p = Ok r -> validate (params r) = true.
+Proof. exact (forwards_wf o i n names0 ha hk uva uvk p r). Qed.
+Print Assumptions C15_forwards_wf.
+
+(* no exception other than IncompatibleSignatures / ValueError, for ALL inputs *)
+Theorem C15_merge_only_value_errors s0 ss : benign (merge (s0 :: ss)).
+Proof. exact (merge_only_value_errors s0 ss). Qed.
+Print Assumptions C15_merge_only_value_errors.
+Theorem C15_embed_only_value_errors s0 ss uva uvk : benign (embed (s0 :: ss) uva uvk).
+Proof. exact (embed_only_value_errors s0 ss uva uvk). Qed.
+Print Assumptions C15_embed_only_value_errors.
+Theorem C15_mask_only_value_errors s n h named pm : benign (mask_gen s n h named pm).
+Proof. exact (mask_gen_only_value_errors s n h named pm). Qed.
+Print Assumptions C15_mask_only_value_errors.
+Theorem C15_forwards_only_value_errors o i n names0 ha hk uva uvk p :
+  benign (forwards o i n names0 ha hk uva uvk p).
+Proof. exact (forwards_only_value_errors o i n names0 ha hk uva uvk p). Qed.
+Print Assumptions C15_forwards_only_value_errors.
+
+(* a plain ValueError (not IncompatibleSignatures) from merge can only come from
+   the final validating constructor *)
+Theorem C15_merge_value_error_only_from_validation s0 ss :
+  merge (s0 :: ss) = Err ValueErr ->
+  exists acc, merge_steps (sort_params s0) ss = Ok acc /\ validate (flatten acc) = false.
+Proof. exact (merge_value_error_only_from_validation s0 ss). Qed.
+Print Assumptions C15_merge_value_error_only_from_validation.
